@@ -580,6 +580,10 @@ func (c *Ctx) readerPlace(t *c07Type, va map[string]string, v absint.Term, rs fu
 				switch {
 				case strings.Contains(fn, "Trim"):
 					form = "strtrim"
+					// only trimming NULs (both ends or the right end) undoes the encoder's NUL padding without touching the value
+					if b.Cut == nil || *b.Cut != "\x00" || !(strings.HasSuffix(fn, ".Trim") || strings.HasSuffix(fn, ".TrimRight")) {
+						form = "strtrim[cutset " + fmt.Sprintf("%q", derefStr(b.Cut)) + " of " + fn + "]"
+					}
 				case strings.Contains(fn, "GBK2UTF8"):
 					form = "gbk"
 				case strings.Contains(fn, "BCD2Time"):
@@ -1069,4 +1073,11 @@ func C07ListDebug(p *load.Program, typ string) {
 		}
 	}
 	ra.RunEntry(parse, rst, args, nil)
+}
+
+func derefStr(p *string) string {
+	if p == nil {
+		return "?"
+	}
+	return *p
 }
